@@ -169,3 +169,46 @@ def run_selectcore(rep, count):
         broken.append({"obligation": "correspondence:SELECT-core parser/printer~SelectParseModel/SelectPrintModel",
                        "detail": "%d disagreements, %d code panics; %s" % (dis, panics, first or out[-600:])})
     return broken, summ
+
+
+def run_chains(rep, n1=600, n2=2400):
+    """Linearity of work AND memory (C02: 'with memory bounded likewise'): flat chains of n1 and n2 = 4*n1 elements of every
+    list-like construct; steps per token and bytes allocated by ParseStatements per token must not grow with n.
+    Returns (hits, summary); a hit is (kind, input_hex, detail, tokens, value)."""
+    E, B, _ = bounds()
+    outs = []
+    for n in (n1, n2):
+        cases = os.path.join(verif.BUILD, "chains_%s_%d.txt" % (rep.pid, n))
+        rc, out = verif.sh([PSEARCH, "gen", "-mode", "chains", "-n", str(n)], timeout=600)
+        open(cases, "w").write(out)
+        outp = cases + ".out"
+        verif.parallel_map_files([PSEARCH, "run", "-E", str(E), "-B", str(B), "-mem", "1"], cases, outp, timeout=3000)
+        rows = []
+        with open(cases) as fc, open(outp) as fo:
+            for c, o in zip(fc, fo):
+                p = o.rstrip("\n").split("\t")
+                tk, steps = int(p[1]), int(p[2])
+                per = 0
+                if p[0] == "MEM":
+                    try:
+                        per = int(p[3].split(" = ")[1].split(" ")[0])
+                    except (IndexError, ValueError):
+                        per = 0
+                rows.append((p[0], c.strip(), tk, steps, per, p[3] if len(p) > 3 else ""))
+        outs.append(rows)
+    hits, worst_mem, worst_steps = [], 0.0, 0.0
+    for a, b in zip(outs[0], outs[1]):
+        for r in (a, b):
+            if r[0] in ("BUDGET", "SLOW", "PANIC"):
+                hits.append((r[0], r[1], r[5], r[2], r[3]))
+        if a[0] in ("BUDGET", "PANIC") or b[0] in ("BUDGET", "PANIC") or a[2] < 200 or b[2] < 2 * a[2]:
+            continue
+        sa, sb = a[3] / (a[2] + 16.0), b[3] / (b[2] + 16.0)
+        worst_steps = max(worst_steps, sb / max(sa, 1.0))
+        if sb > 2.0 * max(sa, 4.0):
+            hits.append(("SLOW", b[1], "steps per token grow with the input: %.1f at %d tokens, %.1f at %d tokens" % (sa, a[2], sb, b[2]), b[2], b[3]))
+        if a[4] and b[4]:
+            worst_mem = max(worst_mem, b[4] / float(max(a[4], 1)))
+            if b[4] > 2.0 * max(a[4], 256):
+                hits.append(("MEM", b[1], "bytes allocated by ParseStatements per token grow with the input: %d at %d tokens, %d at %d tokens" % (a[4], a[2], b[4], b[2]), b[2], b[4]))
+    return hits, {"constructs": len(outs[0]), "sizes": [n1, n2], "max_growth_of_bytes_per_token": round(worst_mem, 2), "max_growth_of_steps_per_token": round(worst_steps, 2)}
